@@ -88,8 +88,11 @@ theorem var_symm (d : Dir) (iv jv k : Nat) (p : Sample × Sample) :
 
 /-! non-vacuity: three collinear samples -/
 def s3 : List Sample := [⟨[0], [some 1], none, true⟩, ⟨[1], [some 3], none, true⟩, ⟨[2], [some 2], none, true⟩]
-def d1 : Dir := ⟨[1], 0, none, none, 3, 1, 1/2⟩
+def d1 : Dir := ⟨[1], 0, none, none, 3, 1, 1/2, false⟩
+def d1o : Dir := ⟨[1], 0, none, none, 3, 1, 1/2, true⟩
 example : SortedX s3 := by simp [SortedX, s3]
 example : (lagDef d1 0 0 1 s3).1 = 2 ∧ (lagDef d1 0 0 1 s3).2.1 = some (5/4) := by decide +kernel
+/-- order-4 variogram of the same data: ½(2⁴ + 1⁴)/2 = 17/4 -/
+example : (lagDef d1o 0 0 1 s3).2.1 = some (17/4) := by decide +kernel
 
 end GstProofs.C12
